@@ -183,6 +183,7 @@ func UnifyGenericType [C15]
 func UnifyGenericType#2 [C03]
   safe bounds
   requires genericTypes != nil
+  loop 1 invariant genericTypes != nil
 
 // instantiations are cached per generic Kombination: the first cached instantiation whose type arguments are pairwise
 // equivalent to the requested ones is returned (equal arguments => one and the same type object) ...
